@@ -2924,13 +2924,23 @@ def _preimage_of(
         abs(i - j) == 1
         for i, j in rename.items()
         if isinstance(i, int) and isinstance(j, int))
-    if neighbors:
+    values = set(rename.values())
+    fused = (
+        neighbors and
+        len(values) == len(rename) and
+        values.isdisjoint(
+            bdd.support(target, as_levels=True)))
+    if fused:
         return _image(
             trans, target, rename_u, rename_v,
             qvars, bdd, forall, cache)
-    # The recursion of `_image` assumes that each
-    # variable is next to its partner. Reordering
-    # can separate them: rename, conjoin, quantify.
+    # The recursion of `_image` renames `target`
+    # on the fly. This assumes that each variable
+    # is next to its partner (reordering can
+    # separate them), that no two variables have
+    # the same partner, and that `target` does not
+    # depend on the partners.
+    # Otherwise: rename, conjoin, quantify.
     level_map = {
         j: rename.get(j, j)
         for j in range(len(bdd.vars))}
